@@ -33,7 +33,7 @@ Recomputes(e) == \/ e.op \in {"disconnected", "setradius"}
                  \/ e.op = "connected" /\ e.err = ""
                  \/ e.op = "force" /\ e.err = ""
                  \/ e.op = "outbound" /\ ~e.boot
-                 \/ e.op = "reachable" /\ e.status = "public"
+                 \/ e.op = "reachable"
 
 \* reference model after the event (connection results as observed: a refused
 \* inbound connection is not a connection)
